@@ -228,6 +228,33 @@ func All() []Scenario {
 	}
 	out = append(out, Scenario{Name: "clientregistry", Kind: "registry", Spec: regSpec, Setup: func() any { return clientregistry.New() }, Threads: regThreads(false)})
 	out = append(out, Scenario{Name: "clientregistry-duplicate", Kind: "registry", Spec: regSpec, Setup: func() any { return clientregistry.New() }, Threads: regThreads(true)})
+	// lookups that find nothing (the empty version string, an unknown version) before and between registrations: a lookup that
+	// fails must leave the registry usable (every path out of the lookup releases what it took)
+	lookup := func(reg *clientregistry.Registry, v string) string {
+		pv, err := reg.CreateClientVersion(v, &vcommon.ProtocolConfig{})
+		if err != nil {
+			return "none"
+		}
+		return pv.Version()
+	}
+	out = append(out, Scenario{Name: "clientregistry-failing-lookups", Kind: "registry", Spec: regSpec, Setup: func() any { return clientregistry.New() },
+		Threads: []func(any, Rec, int){
+			func(s any, r Rec, t int) {
+				reg := s.(*clientregistry.Registry)
+				r.Call(t, "get <empty>", func() string { return lookup(reg, "") })
+				r.Call(t, "setonce 2.0 F", func() string { return guard(func() string { reg.Register("2.0", &fakeFactory{"F"}); return "" }) })
+			},
+			func(s any, r Rec, t int) {
+				reg := s.(*clientregistry.Registry)
+				r.Call(t, "get 99.0", func() string { return lookup(reg, "99.0") })
+				r.Call(t, "get <empty>", func() string { return lookup(reg, "") })
+			},
+			func(s any, r Rec, t int) {
+				reg := s.(*clientregistry.Registry)
+				r.Call(t, "setonce 3.0 G", func() string { return guard(func() string { reg.Register("3.0", &fakeFactory{"G"}); return "" }) })
+				r.Call(t, "get 2.0", func() string { return lookup(reg, "2.0") })
+			},
+		}})
 	// ---- 3. logging handler
 	out = append(out, Scenario{Name: "log-handler", Kind: "registry",
 		Spec: func(state map[string]string, call string) string {
